@@ -128,7 +128,7 @@ class Exec:
         m = re.match(r'^const "(.*)"$', op, re.S)
         if m:
             return ("str", m.group(1))
-        m = re.match(r"^const ([iu](?:8|16|32|64|size))::(MIN|MAX)$", op)
+        m = re.match(r"^const (?:core::num::<impl )?([iu](?:8|16|32|64|size))>?::(MIN|MAX)$", op)
         if m:
             lo, hi = INT_RANGES[m.group(1)]
             return ("int", int_lit(lo if m.group(2) == "MIN" else hi))
